@@ -24,7 +24,7 @@ EXPLANATION = (
     "declares no schema element (what a lone Thrift STOP byte parses as), returns NULL - the arena's answer "
     "to a zero-size request is obtained by executing carquet_arena_calloc, not assumed; (3) carquet_writer_abort closes the stream "
     "and then removes the path for path-based writers, and whether it removes depends only on {owns_file, "
-    "file, path}. (8) a member the writer releases outside its destructor - directly or by handing it (or a local copy of it that can still be current) to a function that frees its parameter - is assigned again before the function returns, so abort and close do not release it a second time (R27). Decides these clauses, not that every prefix of every file is rejected (that depends on "
+    "file, path}. (8) a member the writer releases outside its destructor - directly or by handing it (or a local copy of it that can still be current) to a function that frees its parameter - is assigned again before the function returns, so abort and close do not release it a second time (R27). (9) R44 as in C08.12 over the Thrift decoder, the buffer reader and the file readers: whatever bytes a cut leaves in front of the trailing magic, a length field among them cannot make `position + length` wrap and the parser leave the footer - the file is then refused like any other malformed footer. Decides these clauses, not that every prefix of every file is rejected (that depends on "
     "byte values).")
 
 FW = "src/writer/file_writer.c"
@@ -107,6 +107,10 @@ def run(ctx):
     ctx.clause("C18.1 stream results reach the status; close flushes on every OK path")
     ctx.clause("C18.2 size/magic/footer-length validation dominates metadata parsing in all open paths")
     ctx.clause("C18.3 abort closes and removes")
+    ctx.clause("C18.9 the tail of a truncated file that happens to parse as Thrift cannot run the parser out of the footer: no 64-bit length decoded from it reaches a `position + length` test untested (rule shared with C08.12)")
+    from ..rules import wrapsum
+    nws = wrapsum.check(ctx, sorted(set(P.rel(f.file) for f in P.lib_functions() if P.rel(f.file).startswith(("src/thrift/", "src/core/", "src/reader/")))))
+    ctx.floor("C18 lengths handed to position + length tests", nws, 10)
     ctx.clause("C18.7 a footer that declares no schema element (a lone Thrift STOP parses as one) is refused by every open path")
     _empty_footer_rule(ctx)
     ctx.clause("C18.8 what the writer releases after a failure it also forgets: abort and close do not release it a second time (rule shared with C07.5)")
